@@ -1,21 +1,21 @@
-(* Case checker for C06 (segmenter).  kind 1 = model differs from the implementation,
-   kind 2 = implementation differs from the UAX #14 / #29 specification (oracle),
+(* Case checker for C06 (segmenter).  kind 1 = model differs from the implementation (the segmenter model on the
+   rune observations, or the observation obs_of_rune r computed from the regenerated tables differs from the one the
+   library's lookups gave for r),
+   kind 2 = implementation differs from the UAX #14 / #29 specification (oracle), or the library's observation of a
+   rune of the text violates a table fact the rules rely on (obs_wf_g / obs_wf_l / obs_wf_w),
    kind 10 = oracle failure confined to positions matching the known LB25 finding (F3). *)
-From TV Require Export Model.Segmenter Spec.UAX14 Spec.UAX29.
+From Coq Require Import FMapPositive.
+From TV Require Export Model.Segmenter Spec.UAX14 Spec.UAX29 Model.ObsOfRune.
 Open Scope Z_scope.
 
-(* compact rune observation code written by the driver:
-   lb + 43*(gb + 14*(wb + 15*flags)), flags bit0 mnmc, 1 cn, 2 wide, 3 pic, 4 zwjtab, 5 lf, 6 cr, 7 zwj, 8 dq, 9 word *)
-Definition lbc_list := [LB_BK; LB_CR; LB_LF; LB_NL; LB_SP; LB_NU; LB_AL; LB_IS; LB_PR; LB_PO; LB_OP; LB_CL; LB_CP;
-  LB_QU; LB_HY; LB_SG; LB_GL; LB_NS; LB_EX; LB_SY; LB_HL; LB_ID; LB_IN; LB_BA; LB_BB; LB_B2;
-  LB_ZW; LB_CM; LB_EB; LB_EM; LB_WJ; LB_ZWJ; LB_H2; LB_H3; LB_JL; LB_JV; LB_JT; LB_RI; LB_CB;
-  LB_AI; LB_CJ; LB_SA; LB_XX].
-Definition gbc_list := [GB_None; GB_CR; GB_Control; GB_Extend; GB_L; GB_LF; GB_LV; GB_LVT; GB_Prepend; GB_RI;
-  GB_SpacingMark; GB_T; GB_V; GB_ZWJ].
-Definition wbc_list := [WB_None; WB_ALetter; WB_Double_Quote; WB_ExtendFormat; WB_ExtendNumLet; WB_Hebrew_Letter; WB_Katakana;
-  WB_MidLetter; WB_MidNum; WB_MidNumLet; WB_NewlineCRLF; WB_Numeric; WB_RI; WB_Single_Quote; WB_WSegSpace].
+(* a rune as written by the driver: code + 2^24 * r, where r is the code point and code the compact observation
+   code  lb + 43*(gb + 14*(wb + 15*flags)) < 2^24  computed with the library's lookups,
+   flags bit0 mnmc, 1 cn, 2 wide, 3 pic, 4 zwjtab, 5 lf, 6 cr, 7 zwj, 8 dq, 9 word;
+   lbc_list / gbc_list / wbc_list (index -> constructor) are those of Model/ObsOfRune.v *)
+Definition rune_of (z : Z) : Z := z / 16777216.
 
-Definition obs_of_code (z : Z) : obs :=
+Definition obs_of_code (z0 : Z) : obs :=
+  let z := z0 mod 16777216 in
   let lb := z mod 43 in let z1 := z / 43 in
   let gb := z1 mod 14 in let z2 := z1 / 14 in
   let wb := z2 mod 15 in let f := z2 / 15 in
@@ -26,7 +26,7 @@ Definition obs_of_code (z : Z) : obs :=
 Record case := mkCase {
   k_nul : Z; k_psep : Z;               (* observation codes of U+0000 and U+2029 (sentinels of the loop) *)
   k_hist : list (list Z);              (* paragraphs given to the same Segmenter before (reuse history) *)
-  k_text : list Z;
+  k_text : list Z;                     (* runes as code + 2^24 * code point *)
   k_attrs : list Z;                    (* attribute bytes after Init: 1 line, 2 mandatory, 4 grapheme, 8 word *)
   k_lines : list (Z * Z * bool);       (* LineIterator: offset, length, IsMandatoryBreak *)
   k_graphemes : list (Z * Z);
@@ -68,8 +68,27 @@ Fixpoint run_hist (s : segmenter) (h : list (list Z)) : res segmenter :=
   | p :: r => do s' <- seg_init s (map obs_of_code p); run_hist s' r
   end.
 
-Definition corr_ok (c : case) : bool :=
-  forallb (fun z => obs_wf_g (obs_of_code z) && obs_wf_l (obs_of_code z) && obs_wf_w (obs_of_code z)) (k_text c) &&
+(* ---- observation correspondence: obs_of_rune r (regenerated tables through the C20 lookup models) against the
+   observation code the driver computed for r with the library's own lookups, for every rune of every case.
+   obs_of_rune costs a few ms; it is evaluated once per distinct rune of a shard. ---- *)
+Definition zkey (z : Z) : positive := match z with Z0 => 1%positive | Zpos p => (p~0)%positive | Zneg p => (p~1)%positive end.
+Definition memo := PositiveMap.t obs.
+Fixpoint memo_add (m : memo) (zs : list Z) : memo :=
+  match zs with
+  | [] => m
+  | z :: t => let r := rune_of z in
+              memo_add (match PositiveMap.find (zkey r) m with
+                        | Some _ => m
+                        | None => PositiveMap.add (zkey r) (obs_of_rune r) m
+                        end) t
+  end.
+Definition obs_memo (m : memo) (r : Z) : obs :=
+  match PositiveMap.find (zkey r) m with Some o => o | None => obs_of_rune r end.
+Definition runes_match (m : memo) (zs : list Z) : bool :=
+  forallb (fun z => obs_eqb (obs_memo m (rune_of z)) (obs_of_code z)) zs.
+
+Definition corr_ok (m : memo) (c : case) : bool :=
+  runes_match m (concat (k_hist c)) && runes_match m (k_text c) &&
   obs_eqb (obs_of_code (k_nul c)) obs_nul && obs_eqb (obs_of_code (k_psep c)) obs_psep &&
   match (do s0 <- run_hist seg_zero (k_hist c); seg_init s0 (map obs_of_code (k_text c))) with
   | Ok s =>
@@ -144,14 +163,17 @@ Definition oracle (c : case) : nat :=
     segs_ok lines2 0 (k_attrs c) 0 && covers lines2 n && mand_ok (k_lines c) (k_attrs c)
     && segs_ok (k_graphemes c) 0 (k_attrs c) 2 && covers (k_graphemes c) n
     && pairs_eqb (k_words c) (spec_words text (wb_spec text) 0 0 false) in
-  if it_ok then o1 else 2%nat.
+  (* table facts on the library's own observations (theorems obs_of_rune_wf_* of Props/C06.v) *)
+  let wf_ok := forallb (fun o => obs_wf_g o && obs_wf_l o && obs_wf_w o) text in
+  if it_ok && wf_ok then o1 else 2%nat.
 
-Fixpoint check_from (i : nat) (cs : list case) : list (nat * nat) :=
+Fixpoint check_from (m : memo) (i : nat) (cs : list case) : list (nat * nat) :=
   match cs with
   | [] => []
   | c :: r =>
-      (if corr_ok c then [] else [(i, 1%nat)])
+      (if corr_ok m c then [] else [(i, 1%nat)])
       ++ (match oracle c with O => [] | S O => [(i, 10%nat)] | _ => [(i, 2%nat)] end)
-      ++ check_from (S i) r
+      ++ check_from m (S i) r
   end.
-Definition check_all (cs : list case) : list (nat * nat) := check_from 0 cs.
+Definition check_all (cs : list case) : list (nat * nat) :=
+  check_from (fold_left (fun m c => memo_add (fold_left memo_add (k_hist c) m) (k_text c)) cs (PositiveMap.empty obs)) 0 cs.
